@@ -93,6 +93,11 @@ def fieldDefName (n : PTree) := child n (is .Identifier)
 def fieldDefValue (n : PTree) := child n (is .Value)
 def fieldLetName (n : PTree) := child n (is .Identifier)
 def fieldLetValue (n : PTree) := child n (is .Value)
+def fieldLetRangeList (n : PTree) := child n (is .RangeList)
+def rangeSuffixRangeList (n : PTree) := child n (is .RangeList)
+def rangeListPieces (n : PTree) := children n (is .RangePiece)
+def rangePieceStart (n : PTree) := nthChild n (is .Integer) 0
+def rangePieceEnd (n : PTree) := nthChild n (is .Integer) 1
 def bitsTypeLength (n : PTree) := child n (is .Integer)
 def listTypeInnerType (n : PTree) := child n (isAny typeKinds)
 def classIdName (n : PTree) := child n (is .Identifier)
